@@ -18,7 +18,7 @@ _USE_PATTERN_MATCHING = (sys.version_info >= (3, 10))
 
 
 class PyRTLProcess(BaseProcess):
-    __slots__ = ("is_comb", "runnable", "critical", "run")
+    __slots__ = ("is_comb", "runnable", "critical", "clocked", "run")
 
     def __init__(self, *, is_comb):
         self.is_comb  = is_comb
@@ -28,6 +28,7 @@ class PyRTLProcess(BaseProcess):
     def reset(self):
         self.runnable = self.is_comb
         self.critical = False
+        self.clocked  = False
 
 
 class _PythonEmitter:
@@ -458,10 +459,12 @@ def comb_waker(process):
     return waker
 
 
-def edge_waker(process, polarity):
+def edge_waker(process, polarity, *, is_clock=False):
     def waker(curr, next):
         if next == polarity:
             process.runnable = True
+            if is_clock:
+                process.clocked = True
         return True
     return waker
 
@@ -534,13 +537,28 @@ class _FragmentCompiler:
             else:
                 domain = fragment.domains[domain_name]
                 clk_polarity = 1 if domain.clk_edge == "pos" else 0
-                self.state.add_signal_waker(domain.clk, edge_waker(domain_process, clk_polarity))
+                self.state.add_signal_waker(domain.clk, edge_waker(domain_process, clk_polarity, is_clock=True))
                 if domain.async_reset and domain.rst is not None:
                     self.state.add_signal_waker(domain.rst, edge_waker(domain_process, 1))
 
                 for (signal, _) in lhs_masks.masks():
                     signal_index = self.state.get_signal(signal)
                     emitter.append(f"next_{signal_index} = slots[{signal_index}].next")
+
+                if domain.async_reset and domain.rst is not None:
+                    # Woken up by the asynchronous reset alone (no active clock edge): only the reset
+                    # takes effect; nothing is clocked, so `reset_less` signals, memories, and
+                    # `Print`/`Assert` statements are left alone.
+                    emitter.append("if not process.clocked:")
+                    with emitter.indent():
+                        for (signal, mask) in lhs_masks.masks():
+                            if not signal.reset_less:
+                                if signal.shape().signed and (mask & 1 << (len(signal) - 1)):
+                                    mask |= -1 << len(signal)
+                                signal_index = self.state.get_signal(signal)
+                                emitter.append(f"slots[{signal_index}].update({signal.init}, {mask})")
+                        emitter.append("return")
+                    emitter.append("process.clocked = False")
 
                 _StatementCompiler(self.state, emitter)(domain_stmts)
 
@@ -616,6 +634,7 @@ class _FragmentCompiler:
 
             exec_locals = {
                 "slots": self.state.slots,
+                "process": domain_process,
                 **_ValueCompiler.helpers,
                 **_StatementCompiler.helpers,
             }
